@@ -144,7 +144,6 @@ pub fn profile_for(id: &str, rng: &mut Rng) -> Profile {
             p.w_failing = 2;
         }
         "C13" => {
-            p.guards.push("vacuum_after_rolled_back_delete".into()); // D14
             p.guards.push("ddl_after_vacuum".into()); // D29
             // D29b / D29c: VACUUM is explored in single-table worlds without UPDATE
             p.guards.push("vacuum_with_more_than_one_table".into());
@@ -215,8 +214,7 @@ pub fn profile_for(id: &str, rng: &mut Rng) -> Profile {
                 // a client whose transaction VACUUM aborted sends COMMIT / ROLLBACK or vanishes
                 p.zombie_sessions = true;
                 p.w_vacuum = 8;
-                // the region in which VACUUM itself is clean on this tree (as for C13: D14, D29, D29b, D29c)
-                p.guards.push("vacuum_after_rolled_back_delete".into());
+                // the region in which VACUUM itself is clean on this tree (as for C13: D29, D29b, D29c)
                 p.guards.push("ddl_after_vacuum".into());
                 p.guards.push("vacuum_with_more_than_one_table".into());
                 p.guards.push("vacuum_of_updated_rows".into());
